@@ -580,7 +580,11 @@ pub fn generate(seed: u64, n: usize, thorough: bool, corpus: Option<&str>) -> Ve
         if let Ok(rd) = std::fs::read_dir(dir) {
             let mut files: Vec<_> = rd.filter_map(|e| e.ok()).map(|e| e.path()).filter(|p| p.extension().map(|x| x == "rooc").unwrap_or(false)).collect();
             files.sort();
-            for f in files { if let Ok(s) = std::fs::read_to_string(&f) { from_source(&s, "corpus", &mut cases); } }
+            for f in files {
+                // `*bounds-order*` files are sources on which one compilation reaches the bounds fixed point (strict oracle)
+                let tag = if f.file_name().map(|n| n.to_string_lossy().contains("bounds-order")).unwrap_or(false) { "corpus-bounds-order" } else { "corpus" };
+                if let Ok(s) = std::fs::read_to_string(&f) { from_source(&s, tag, &mut cases); }
+            }
         }
     }
     // recorded only: 1e22 prints as an integer literal beyond i64 (outside the stated 1e9 range)
